@@ -38,7 +38,7 @@ pub fn watched_for<T: Send + 'static>(
 ) -> Result<T, Hang> {
     let (tx, rx) = mpsc::channel();
     let (tid_tx, tid_rx) = mpsc::channel();
-    std::thread::Builder::new()
+    let jh = std::thread::Builder::new()
         .name("watched".into())
         .spawn(move || {
             let _ = tid_tx.send(crate::interpose::gettid());
@@ -48,7 +48,11 @@ pub fn watched_for<T: Send + 'static>(
         .expect("spawn watched thread");
     let tid = tid_rx.recv().unwrap_or(0);
     match rx.recv_timeout(limit) {
-        Ok(v) => Ok(v),
+        Ok(v) => {
+            // the thread is over: join it so that the process is single-threaded again (fork safety)
+            let _ = jh.join();
+            Ok(v)
+        },
         Err(_) => {
             let (s1, c1) = task_info(tid);
             // one more second: maybe it was only slow
@@ -171,4 +175,60 @@ pub fn private_tmpdir() -> String {
 }
 pub fn cleanup_tmpdir(dir: &str) {
     let _ = std::fs::remove_dir_all(dir);
+}
+
+/// Run a whole case in a forked child (the caller must be single-threaded) and ship the verdict
+/// back over the report pipe.  `prepare` runs in the child first (e.g. reset SIGPIPE).
+pub fn exec_in_child(
+    limit: Duration,
+    prepare: impl FnOnce(),
+    f: impl FnOnce() -> Result<crate::engine::Outcome, Failure>,
+) -> (ChildEnd, Option<Result<crate::engine::Outcome, Failure>>) {
+    use serde_json::json;
+    let child = fork_child(|w| {
+        prepare();
+        let r = f();
+        let doc = match &r {
+            Ok(o) => json!({"ok": true, "nontrivial": o.nontrivial, "class": o.class,
+                "counters": o.counters.iter().map(|(k, v)| json!([k, v])).collect::<Vec<_>>(), "trace": o.trace_hash}),
+            Err(e) => json!({"ok": false, "signature": e.signature, "detail": e.detail, "inconclusive": e.inconclusive}),
+        };
+        let _ = w.write_all(doc.to_string().as_bytes());
+        0
+    });
+    let (end, buf) = child.wait(limit);
+    let parsed = serde_json::from_slice::<serde_json::Value>(&buf).ok().map(|v| {
+        if v["ok"].as_bool() == Some(true) {
+            let mut o = crate::engine::Outcome::new(v["nontrivial"].as_bool().unwrap_or(false), v["class"].as_str().unwrap_or("").to_string());
+            if let Some(a) = v["counters"].as_array() {
+                for kv in a {
+                    if let (Some(k), Some(n)) = (kv[0].as_str(), kv[1].as_u64()) {
+                        o.counters.push((leak_str(k), n));
+                    }
+                }
+            }
+            o.trace_hash = v["trace"].as_u64();
+            Ok(o)
+        } else {
+            let mut f = Failure::new(v["signature"].as_str().unwrap_or("?").to_string(), v["detail"].as_str().unwrap_or("").to_string());
+            f.inconclusive = v["inconclusive"].as_bool().unwrap_or(false);
+            Err(f)
+        }
+    });
+    (end, parsed)
+}
+
+fn leak_str(s: &str) -> &'static str {
+    // counter names form a small fixed set; interning by leaking is bounded
+    use std::collections::HashMap;
+    use std::sync::Mutex;
+    static TABLE: Mutex<Option<HashMap<String, &'static str>>> = Mutex::new(None);
+    let mut g = TABLE.lock().unwrap();
+    let t = g.get_or_insert_with(HashMap::new);
+    if let Some(x) = t.get(s) {
+        return x;
+    }
+    let l: &'static str = Box::leak(s.to_string().into_boxed_str());
+    t.insert(s.to_string(), l);
+    l
 }
